@@ -25,6 +25,7 @@ C04-einsum-partial-sum-raises  EinSum('ij->j'), EinSum('i,j->') (an index summed
 C04-concat-scalar-raises  ConcatSignal with a python-scalar input state: sensitivity() raises TypeError (float() of a length-1 array, numpy >= 2).
 """
 import re
+import signal
 import numpy as np
 from native.util import bound, REPLAY_HEAD
 
@@ -321,17 +322,39 @@ F_EINSUM = 'C04-einsum-partial-sum-raises'
 F_CONCAT = 'C04-concat-scalar-raises'
 
 
+class Timeout(Exception):
+    pass
+
+
+def _alarm(*_):
+    raise Timeout()
+
+
+HANGS = [0]
+
+
 def execute(r, late, group, key, src, opts, seed, known=None):
     """run the protocol on one case; finding-tagged failures are emitted last (see flush)"""
     r.case((group,) + tuple(key))
     call = f"fails = protocol(build, {seed}, **{opts!r})\nprint(fails)\nassert not fails, fails\n"
     replay = PRE + src + "\n" + call
     ns = dict(_BASE)
+    if HANGS[0] >= 3:
+        r.check(False, f'{group}: not executed, 3 earlier cases did not terminate', dict(case=key), replay_code=replay)
+        return
+    old = signal.signal(signal.SIGVTALRM, _alarm)
+    signal.setitimer(signal.ITIMER_VIRTUAL, 20.0)      # a case takes some 10 ms; a loop that never ends must not block the check
     try:
         exec(src, ns)
         fails = ns['protocol'](ns['build'], seed, **opts)
+    except Timeout:
+        HANGS[0] += 1
+        fails = [('does not terminate', 'no result after 20 s')]
     except Exception as e:
         fails = [('raises', f'{type(e).__name__} while building the case: {str(e)[:200]}')]
+    finally:
+        signal.setitimer(signal.ITIMER_VIRTUAL, 0)
+        signal.signal(signal.SIGVTALRM, old)
     for clause, detail in fails:
         fid = None
         for pat, f in (known or {}).items():
@@ -360,6 +383,7 @@ DOM = {'2d': "pym.DomainDefinition(3, 2, unitx=0.5, unity=1.5, unitz=2.0)", '2d-
 
 def runall(r, tier, seed, group, cases):
     late = {}
+    HANGS[0] = 0
     nseed = 1 if tier == 'quick' else 4
     for key, src, opts, known in cases:
         for k in range(nseed):
